@@ -346,6 +346,14 @@ def apply_op(w, op, expected_exc):
     try:
         if name in ("add", "delete", "delete_flush", "s2_add") and o is not None:
             st_o = w.inspect(o)
+            if st_o.detached and not w.rig.truth(
+                    f"SELECT 1 FROM {'p' if type(o) is w.P else 'c'} WHERE id=?", (st_o.key[1][0],)):
+                # a detached object whose row does not exist (its INSERT was rolled back by
+                # close(), or it was deleted): re-attaching it is an application error the
+                # session cannot see - a later INSERT of a merged copy then takes its key
+                w.desc["ops"].pop()
+                w.ctx.count("attach_of_rowless_detached_skipped")
+                return
             if st_o.detached and any(x is not o and w.inspect(x).key == st_o.key for x in tr.objs.values()):
                 # a detached twin: the history made the library build / load a second
                 # instance for the same row (merge, delete cascade).  Attaching the detached
